@@ -35,6 +35,7 @@ Fixed corner set (both tiers, CornerTexts of Text.tla): for every markup charact
 """
 import ast
 import collections
+import copy
 import hashlib
 import io
 import json
@@ -50,12 +51,12 @@ from concurrent.futures import ProcessPoolExecutor, ThreadPoolExecutor
 
 from .. import core, gen, tlc
 
-NPROC = 14
+NPROC = 8
 # single-worker TLC runs: small heap, two GC threads, C1 only (measured: 3x less CPU per batch than the defaults)
 JVM = {'JAVA_TOOL_OPTIONS': '-Xmx3g -Xss16m -XX:ParallelGCThreads=2 -XX:TieredStopAtLevel=1'}
 PKG = 'acme.tx.v1'
 PKGDIR = 'acme/tx_v1/'
-ORIGINS = ['message', 'field', 'enum', 'value', 'service', 'method']
+ORIGINS = ['message', 'response', 'field', 'enum', 'value', 'service', 'method']   # response = comment of the response message
 MARK = {o: 'zqmk' + o for o in ORIGINS}          # harmless baseline comments, also used to discover docstring sites
 
 # ---------------------------------------------------------------------------------------------------
@@ -234,7 +235,7 @@ def _text_job(job):
                 if fn == 'wrap':
                     out = wrap(text, p['width'], offset=p['offset'], indent=p['indent'])
                 else:
-                    out = rst(text, width=p['width'], indent=p['indent'], nl=_NL[p['nl']])
+                    out = rst(text, width=p['width'], indent=p['indent'], nl=_NL[p['nl']], source_format=p['fmt'])
             except Exception as e:  # the property says "never": an exception is an observation, not a crash
                 out, raised = '', type(e).__name__.lower()
             if not isinstance(out, str):
@@ -248,8 +249,43 @@ def _text_job(job):
     return res
 
 
+# every case emission of a tier is started at once (threads around TLC processes); the parts pick the results up
+_EMITS = {}
+_USED = set()
+
+
+def _emit_key(cfg, kw):
+    return (cfg, kw.get('simulate'), kw.get('seed'))
+
+
+def prefetch(ex, quick, seed):
+    runs = [('Text.emit.inputs.small.cfg' if quick else 'Text.emit.inputs.full.cfg', dict(timeout=1500)),
+            ('Text.emit.params.cfg', {}), ('Text.emit.corners.cfg', {}),
+            ('Text.emit.simtexts.cfg', dict(simulate=800 if quick else 12000, depth=12, seed=seed + 1, timeout=1500)),
+            ('Text.emit.layouts.small.cfg', dict(timeout=1500)),
+            ('Text.emit.simlayouts.cfg', dict(simulate=600 if quick else 6000, depth=10, seed=seed + 2, timeout=1500)),
+            ('Text.emit.docs.small.cfg' if quick else 'Text.emit.docs.full.cfg', {})]
+    if not quick:
+        runs += [('Text.emit.layouts.full.cfg', dict(timeout=1500)), ('Text.emit.docs.conv.cfg', {})]
+    for cfg, kw in runs:
+        _EMITS[_emit_key(cfg, kw)] = ex.submit(tlc.emit_cases, 'Text', cfg, deadlock=False, **kw)
+
+
+def emit_cases(module, cfg, **kw):
+    """tlc.emit_cases, served from the prefetched runs when there is one (a result used twice is accounted once)"""
+    key = _emit_key(cfg, kw)
+    f = _EMITS.get(key)
+    if f is None:
+        return tlc.emit_cases(module, cfg, **kw)
+    cases, r = f.result()
+    if key in _USED:
+        r = copy.copy(r); r.generated = r.distinct = 0
+    _USED.add(key)
+    return list(cases), r
+
+
 def emit_corners(chk):
-    corners, r = tlc.emit_cases('Text', 'Text.emit.corners.cfg', deadlock=False)
+    corners, r = emit_cases('Text', 'Text.emit.corners.cfg', deadlock=False)
     chk.add_tlc(r, 'Text input emission (fixed corner texts: markup + trailing quote)')
     if not corners or not all(c['conv'] for c in corners):
         raise core.MachineryError('no corner texts emitted')
@@ -257,12 +293,12 @@ def emit_corners(chk):
 
 
 def part_text(chk, quick, rnd, pool):
-    cases, r = tlc.emit_cases('Text', 'Text.emit.inputs.small.cfg' if quick else 'Text.emit.inputs.full.cfg',
+    cases, r = emit_cases('Text', 'Text.emit.inputs.small.cfg' if quick else 'Text.emit.inputs.full.cfg',
                               deadlock=False, timeout=1500)
     chk.add_tlc(r, 'Text input emission (texts, exhaustive)')
-    pcases, r = tlc.emit_cases('Text', 'Text.emit.params.cfg', deadlock=False)
+    pcases, r = emit_cases('Text', 'Text.emit.params.cfg', deadlock=False)
     chk.add_tlc(r, 'Text parameter emission')
-    sims, r = tlc.emit_cases('Text', 'Text.emit.simtexts.cfg', deadlock=False, simulate=800 if quick else 12000,
+    sims, r = emit_cases('Text', 'Text.emit.simtexts.cfg', deadlock=False, simulate=800 if quick else 12000,
                              depth=12, seed=chk.seed + 1, timeout=1500)
     chk.add_tlc(r, 'Text input emission (texts, random walks)')
     if not cases or not pcases or not sims:
@@ -292,7 +328,7 @@ def part_text(chk, quick, rnd, pool):
     jobs, cur, n = [], [], 0
     for u in units:
         cur.append(u); n += len(u[3])
-        if n >= (4000 if quick else 20000):
+        if n >= (10000 if quick else 20000):
             jobs.append(cur); cur, n = [], 0
     if cur:
         jobs.append(cur)
@@ -380,17 +416,21 @@ def api_docs(docs):
         enums=[dict(name='Kind', values=['KIND_UNSPECIFIED', 'ALPHA'], doc=docs.get('enum'))],
         messages=[dict(name='Req', doc=docs.get('message'),
                        fields=[dict(name='name', doc=docs.get('field')), dict(name='kind', type='enum:Kind')]),
-                  dict(name='Resp', fields=[dict(name='x')])],
+                  dict(name='Resp', doc=docs.get('response'), fields=[dict(name='x')])],
         services=[dict(name='Svc', doc=docs.get('service'),
                        methods=[dict(name='Do', **{'in': 'Req', 'out': 'Resp'}, doc=docs.get('method'),
                                      http=[dict(verb='get', uri='/v1/{name=items/*}')], sigs=['name'])])])])
 
 
-def build_request(docs, workdir):
+VARIANT_OPTS = {'std': dict(transport=['grpc', 'rest'], snippets=False),
+                'ads': dict(templates='ads-templates', old_naming=True, snippets=False)}   # Ads template set
+
+
+def build_request(docs, workdir, variant='std'):
     """abstract API -> request; the enum VALUE comment is added here (absapi has no slot for it):
     path [5 enum_type, 0, 2 value, 1] of the target file, as protoc writes it."""
     from .. import absapi
-    req = absapi.build_request(api_docs(docs), gen.option_string(dict(transport=['grpc', 'rest'], snippets=False), workdir))
+    req = absapi.build_request(api_docs(docs), gen.option_string(VARIANT_OPTS[variant], workdir))
     if docs.get('value') is not None:
         f = [x for x in req.proto_file if x.name == 'acme/tx/v1/tx.proto'][0]
         loc = f.source_code_info.location.add()
@@ -458,14 +498,14 @@ def _emitted_job(which):
 
 
 def part_fix(chk, quick, rnd, pool):
-    lay, r = tlc.emit_cases('Text', 'Text.emit.layouts.small.cfg', deadlock=False, timeout=1500)
+    lay, r = emit_cases('Text', 'Text.emit.layouts.small.cfg', deadlock=False, timeout=1500)
     chk.add_tlc(r, 'Text input emission (layouts up to 2 items, every gap)')
     nex = len(lay)
     extra = []
     if not quick:
-        extra, r = tlc.emit_cases('Text', 'Text.emit.layouts.full.cfg', deadlock=False, timeout=1500)
+        extra, r = emit_cases('Text', 'Text.emit.layouts.full.cfg', deadlock=False, timeout=1500)
         chk.add_tlc(r, 'Text input emission (layouts up to 3 items)')
-    sims, r = tlc.emit_cases('Text', 'Text.emit.simlayouts.cfg', deadlock=False, simulate=600 if quick else 6000,
+    sims, r = emit_cases('Text', 'Text.emit.simlayouts.cfg', deadlock=False, simulate=600 if quick else 6000,
                              depth=10, seed=chk.seed + 2, timeout=1500)
     chk.add_tlc(r, 'Text input emission (layouts, random walks)')
     if not lay or not sims:
@@ -476,9 +516,9 @@ def part_fix(chk, quick, rnd, pool):
         k = json.dumps(c['items'], sort_keys=True)
         if k not in seen:
             seen.add(k); allc.append(c['items'])
-    pcases, r = tlc.emit_cases('Text', 'Text.emit.params.cfg', deadlock=False)
+    pcases, r = emit_cases('Text', 'Text.emit.params.cfg', deadlock=False)
     endings = [c['par']['ending'] for c in pcases if c['fn'] == 'fixws']
-    per = 400 if quick else 4000
+    per = 700 if quick else 4000
     units = [(items, endings) for items in allc]
     jobs = [units[i:i + per] for i in range(0, len(units), per)]
     futs = [pool.submit(_emitted_job, w) for w in ('pager', 'docs')]
@@ -592,6 +632,9 @@ def enable_template_cache():
     jinja2.Environment = CachedEnvironment
 
 
+_BASE_FUTURE = None
+
+
 def compute_baseline(_=None):
     """the carrier API with a harmless marker comment at every origin: view of every emitted module and the docstring
     owners that carry each origin's comment (sites are discovered, not hard-coded)."""
@@ -606,15 +649,28 @@ def compute_baseline(_=None):
                 return dict(error='the template bytecode cache changes the output of the generator')
     if res.error:
         return dict(error='baseline generation failed: ' + res.error[:1000])
-    files = {}
-    for f in res.file:
-        if f.name.endswith('.py'):
-            v = module_view(f.content)
-            if not v['compiles']:
-                return dict(broken=f.name, detail=v['error'])
-            sites = {o: sorted(q for q, (nt, val) in v['docs'].items() if MARK[o] in val) for o in ORIGINS}
-            files[f.name] = dict(sha=hashlib.sha1(f.content.encode()).hexdigest(), view=v, skeleton=v['skeleton'], sites=sites)
-    return dict(files=files)
+    variants = {}
+    for variant in VARIANT_OPTS:
+        if variant != 'std':
+            with gen.scratch() as work:
+                res = gen.generate(build_request({o: MARK[o] for o in ORIGINS}, work, variant))
+            if res.error:
+                return dict(error=f'baseline generation ({variant}) failed: ' + res.error[:1000])
+        files = {}
+        for f in res.file:
+            if f.name.endswith('.py'):
+                v = module_view(f.content)
+                if not v['compiles']:
+                    return dict(broken=f.name, detail=v['error'])
+                sites = {o: sorted(q for q, (nt, val) in v['docs'].items() if MARK[o] in val) for o in ORIGINS}
+                files[f.name] = dict(sha=hashlib.sha1(f.content.encode()).hexdigest(), view=v, skeleton=v['skeleton'], sites=sites)
+        variants[variant] = files
+    return dict(files=variants)
+
+
+def returns_section(val):
+    """the part of a method docstring after its 'Returns:' heading (pure text split)"""
+    return val.split('Returns:', 1)[1] if 'Returns:' in val else val
 
 
 def _embed_job(args):
@@ -626,36 +682,45 @@ def _embed_job(args):
     for toks, text, origin in job:
         docs = {o: MARK[o] for o in ORIGINS}
         docs[origin] = text
-        err = ''
-        try:
-            with gen.scratch() as work:
-                res = gen.generate(build_request(docs, work))
-            err = res.error
-        except Exception as e:
-            err = f'{type(e).__name__}: {e}'
-        out = {f.name: f.content for f in res.file} if not err else {}
-        for name, b in sorted(base.items()):
-            rel = name[len(PKGDIR):] if name.startswith(PKGDIR) else name
-            if err or name not in out:
-                v = dict(compiles=False, error='generation failed: ' + err[:300] if err else 'module not emitted', warnings=0)
-            elif hashlib.sha1(out[name].encode()).hexdigest() == b['sha']:
-                v = b['view']                      # byte-identical to the baseline module: same view
-            else:
-                v = module_view(out[name])
-            nwarn += v['warnings']
-            sites = b['sites'][origin] or [None]
-            for q in sites:
-                o = dict(ev='out_embed', compiles=v['compiles'], rest_same=v['compiles'] and v['skeleton'] == b['skeleton'],
-                         hasdoc=q is not None, ndoc=0, words=[])
-                if v['compiles'] and q is not None:
-                    ntok, val = v['docs'].get(q, (0, ''))
-                    o['ndoc'] = ntok; o['words'] = val.split()
-                traces.append(dict(fn='embed', events=[dict(ev='in_text', toks=toks), dict(ev='par_embed', origin=origin), o]))
-                descs.append(dict(keyfmt='embed:{cls}:' + rel, size=len(text), toks=toks, text=text, origin=origin, module=name,
-                                  owner=q, compiles=v['compiles'], error=v.get('error', ''), ndoc=o['ndoc'],
-                                  rest_same=o['rest_same'], warnings=v['warnings']))
-                if q is not None:
-                    nt.append(f'embed:{origin}:{" ".join(toks)}:{rel}:{q}')
+        # the response comment is also rendered with the Ads template set (its Returns: sections are the third
+        # call site of rst(source_format="rst"))
+        for variant in (['std', 'ads'] if origin == 'response' else ['std']):
+            err = ''
+            try:
+                with gen.scratch() as work:
+                    res = gen.generate(build_request(docs, work, variant))
+                err = res.error
+            except Exception as e:
+                err = f'{type(e).__name__}: {e}'
+            out = {f.name: f.content for f in res.file} if not err else {}
+            for name, b in sorted(base[variant].items()):
+                rel = name[len(PKGDIR):] if name.startswith(PKGDIR) else name
+                if variant != 'std':
+                    rel = variant + '/' + rel
+                if origin == 'response':
+                    rel = 'response-comment/' + rel
+                if err or name not in out:
+                    v = dict(compiles=False, error='generation failed: ' + err[:300] if err else 'module not emitted', warnings=0)
+                elif hashlib.sha1(out[name].encode()).hexdigest() == b['sha']:
+                    v = b['view']                      # byte-identical to the baseline module: same view
+                else:
+                    v = module_view(out[name])
+                nwarn += v['warnings']
+                sites = b['sites'][origin] or [None]
+                for q in sites:
+                    o = dict(ev='out_embed', compiles=v['compiles'], rest_same=v['compiles'] and v['skeleton'] == b['skeleton'],
+                             hasdoc=q is not None, ndoc=0, words=[])
+                    if v['compiles'] and q is not None:
+                        ntok, val = v['docs'].get(q, (0, ''))
+                        if origin == 'response':
+                            val = returns_section(val)   # word-for-word against the Returns: section where there is one
+                        o['ndoc'] = ntok; o['words'] = val.split()
+                    traces.append(dict(fn='embed', events=[dict(ev='in_text', toks=toks), dict(ev='par_embed', origin=origin), o]))
+                    descs.append(dict(keyfmt='embed:{cls}:' + rel, size=len(text), toks=toks, text=text, origin=origin, module=name,
+                                      variant=variant, owner=q, compiles=v['compiles'], error=v.get('error', ''), ndoc=o['ndoc'],
+                                      rest_same=o['rest_same'], warnings=v['warnings']))
+                    if q is not None:
+                        nt.append(f'embed:{origin}:{" ".join(toks)}:{rel}:{q}')
     res = _classify(traces, descs)
     res['nontrivial'] = nt
     res['syntax_warnings'] = nwarn
@@ -663,10 +728,10 @@ def _embed_job(args):
 
 
 def part_embed(chk, quick, rnd, pool):
-    docs, r = tlc.emit_cases('Text', 'Text.emit.docs.small.cfg' if quick else 'Text.emit.docs.full.cfg', deadlock=False)
+    docs, r = emit_cases('Text', 'Text.emit.docs.small.cfg' if quick else 'Text.emit.docs.full.cfg', deadlock=False)
     chk.add_tlc(r, 'Text input emission (docs)')
     if not quick:
-        conv, r = tlc.emit_cases('Text', 'Text.emit.docs.conv.cfg', deadlock=False)
+        conv, r = emit_cases('Text', 'Text.emit.docs.conv.cfg', deadlock=False)
         chk.add_tlc(r, 'Text input emission (converter-path docs)')
         docs += [c for c in conv if c['conv']]
     if not docs:
@@ -678,7 +743,7 @@ def part_embed(chk, quick, rnd, pool):
     if not cdocs:
         raise core.MachineryError('corner doc missing')
     docs += cdocs
-    pcases, r = tlc.emit_cases('Text', 'Text.emit.params.cfg', deadlock=False)
+    pcases, r = emit_cases('Text', 'Text.emit.params.cfg', deadlock=False)
     origins = [c['par']['origin'] for c in pcases if c['fn'] == 'embed']
     if sorted(origins) != sorted(ORIGINS):
         raise core.MachineryError(f'origins of the specification {origins} differ from the binding {ORIGINS}')
@@ -686,7 +751,7 @@ def part_embed(chk, quick, rnd, pool):
     rnd.shuffle(units)                              # balance converter-path (slow) cases over the jobs
     k = max(1, min(60, -(-len(units) // NPROC)))
     jobs = [units[i:i + k] for i in range(0, len(units), k)]
-    base = pool.submit(compute_baseline).result()
+    base = (_BASE_FUTURE or pool.submit(compute_baseline)).result()
     if 'error' in base:
         raise core.MachineryError(base['error'])
     if 'broken' in base:
@@ -717,7 +782,7 @@ def part_embed(chk, quick, rnd, pool):
 MUTANTS = [  # (mutant, function, clause that must reject it)
     ('drop_word', 'wrap', 'words'), ('dup_word', 'wrap', 'words'), ('swap_words', 'wrap', 'words'),
     ('overlong', 'wrap', 'width'), ('nonempty_on_empty', 'wrap', 'empty'), ('raise_on_blank', 'wrap', 'raise'),
-    ('no_quote_pad', 'rst', 'tail-quote'), ('drop_word', 'rst', 'words'),
+    ('no_quote_pad', 'rst', 'tail-quote'), ('drop_word', 'rst', 'words'), ('double_backslash', 'rst', 'words'),
     ('keep_trailing', 'fixws', 'trailing-blanks'), ('non_idempotent', 'fixws', 'idempotent'),
     ('eat_code_line', 'fixws', 'lines'), ('eat_indent', 'fixws', 'lines'), ('add_blank', 'fixws', 'blank-added'),
     ('no_final_nl', 'fixws', 'final-newline'), ('double_final_nl', 'fixws', 'final-newline'),
@@ -763,8 +828,11 @@ def main(chk, args):
     quick = chk.tier == 'quick'
     rnd = random.Random(chk.seed)
     gen.ensure_env()
-    with ProcessPoolExecutor(NPROC) as pool, ThreadPoolExecutor(1) as side:
+    with ProcessPoolExecutor(NPROC) as pool, ThreadPoolExecutor(1) as side, ThreadPoolExecutor(10) as pre:
         pool.submit(int).result()                          # fork every worker before any thread exists
+        global _BASE_FUTURE
+        _BASE_FUTURE = pool.submit(compute_baseline)       # baseline generations run beside the first parts
+        prefetch(pre, quick, chk.seed)
         spec = side.submit(run_spec, quick)                # TLC on the specification runs beside the binding
         walls = chk.extra.setdefault('wall_parts_s', {})
         for name, part in (('wrap_rst', part_text), ('fix_whitespace', part_fix), ('embed', part_embed)):
